@@ -18,7 +18,7 @@ RULE = ('all 1440 HH:MM (x 3 carriers), HH:MM:SS stratified (every hour x minute
         'resolved time/datetime entity returned; distinct = distinct (query, reference date).')
 EXHAUSTIVE = False
 JOB_TIMEOUT = 1200
-TIME_CARRIERS = ['at {}', '{}', 'the meeting is at {} .']
+TIME_CARRIERS = ['at {}', '{}', 'the meeting is at {} .', '   at {}']
 
 
 def tv(h, m, s=0):
@@ -155,6 +155,14 @@ def gen(job, ctx):
             d = dtlib.rand_date(r)
             ref = r.choice(refs)
             forms = [(name, f(d), d) for name, f in DATES] + [(w, w, ref.date() + dt.timedelta(days=off)) for w, off in REL]
+            # relative dates of C08: the date part comes from arithmetic on the reference (which has a clock time of its own)
+            D = ref.date()
+            mon = D - dt.timedelta(days=D.weekday())
+            wd = r.randrange(7)
+            N = r.choice([1, 2, 3, 10, r.randrange(1, 400)])
+            forms += [('next weekday', 'next %s' % dtlib.WD_EN[wd], mon + dt.timedelta(days=7 + wd)), ('last weekday', 'last %s' % dtlib.WD_EN[wd], mon + dt.timedelta(days=wd - 7)),
+                      ('this weekday', 'this %s' % dtlib.WD_EN[wd], mon + dt.timedelta(days=wd)),
+                      ('in N days', 'in %d day%s' % (N, '' if N == 1 else 's'), D + dt.timedelta(days=N)), ('N days ago', '%d day%s ago' % (N, '' if N == 1 else 's'), D - dt.timedelta(days=N))]
             for name, ds, dval in forms:
                 h = r.choice([0, 9, 12, 15, 23, r.randrange(24)]); mi = r.choice([0, 30, r.randrange(60)])
                 t = '%02d:%02d' % (h, mi)
@@ -190,6 +198,8 @@ def run(job, ctx):
     for i, (q, expr, ref, want, typ, cls, datepart) in enumerate(gen(job, ctx)):
         if i % job['shards'] == job['shard']:
             check(m, q, expr, ref, want, typ, ctx, cls, datepart)
+            if job['part'] == 'composed' and i % 3 == 0:
+                check(m, '   ' + q + ' ', expr, ref, want, typ, ctx, cls, datepart)      # blanks around the sentence
 
 
 def replay_case(fail, ctx):
